@@ -227,7 +227,7 @@ pub fn check(ex: &Exec, c: u8, t: &TreeModel, queue_empty: bool) -> Result<(), F
 			_ => (),
 		}
 	}
-	if queue_empty && !ex.cfg.cols[c as usize].append_only {
+	if queue_empty && ex.check_entries {
 		match ex.db().get_num_column_value_entries(c) {
 			Ok(n) =>
 				if n != t.total_entries() {
